@@ -505,6 +505,9 @@ def signature(trace, result):
         feats.append('interlocking-cycles')
     if spec['incompat']:
         feats.append('incompat')
+    opts = {o for c in spec['sel'] for o in c[2]}
+    if any(t in opts for (_, t) in map(tuple, spec['derive'])):
+        feats.append('option-derived-elsewhere')
     if gen_dsg.has_unreachable(spec):
         feats.append('unreachable-island')
     if _has_shared_option(spec):
